@@ -38,9 +38,9 @@ ProblemOK(P) ==
   /\ \A p \in Cands(P) : P.rank[p] \in Nat
 
 RangeOf(s) == {s[a] : a \in DOMAIN s}
-NoDup(s) == \A a, b \in DOMAIN s : a # b => s[a] # s[b]
-(* only evaluated on sequences over Cands(P) *)
-Sorted(P, s) == \A a, b \in DOMAIN s : a < b => P.rank[s[a]] <= P.rank[s[b]]
+NoDup(s) == Cardinality(RangeOf(s)) = Len(s)
+(* only evaluated on sequences over Cands(P); adjacent elements suffice (<= is transitive) *)
+Sorted(P, s) == \A a \in 1..(Len(s) - 1) : P.rank[s[a]] <= P.rank[s[a + 1]]
 
 (* ---- (i) the unlimited match ------------------------------------------------------- *)
 (* every pair below the match length, exactly once; none above; non-decreasing distance *)
@@ -147,9 +147,9 @@ CellsOf(G) == (0 .. G.nc - 1) \X (0 .. G.nb - 1)
 GeometryOK(G) == G.nc >= 1 /\ G.nb >= 1 /\ G.s >= 1 /\ G.m >= 1 /\ G.m < G.s
 
 Abs(v) == IF v < 0 THEN -v ELSE v
-Max(a, b) == IF a > b THEN a ELSE b
+Larger(a, b) == IF a > b THEN a ELSE b
 RingDist(G, a, b) == LET d == (a - b) % RingLen(G) IN IF d <= RingLen(G) - d THEN d ELSE RingLen(G) - d
-Dist(G, p, q) == Max(RingDist(G, p[1], q[1]), Abs(p[2] - q[2]))
+Dist(G, p, q) == Larger(RingDist(G, p[1], q[1]), Abs(p[2] - q[2]))
 
 (* the single cell a point is looked up in *)
 Lookup(G, q) == <<q[1] \div G.s, q[2] \div G.s>>
